@@ -1071,6 +1071,17 @@ class Exec:
             # clients on an id nobody else uses) written in the same burst, before and after it
             one = b"7777 C 10.9.8.7 1000 0::1 6667\n7777 n padnick\n7777 D\n"
             if c.get("padkind") == "stats":
+                # (what the daemon writes in one step must fit the socket buffer: a daemon whose end is blocking
+                # would otherwise wait for a peer that, in lock-step, reads only after the step)
+                cap = getattr(self, "sockbuf", None)
+                if cap is None:
+                    cap = next((int(n.split()[1]) for n in (self.h.ready.notes if self.h.ready else []) if n.startswith("SOCKBUF ")), 0)
+                    self.sockbuf = cap
+                # every line is a write of its own, and a small datagram costs the socket buffer a good kilobyte
+                est = (16 + 2 * len(self.w.cfg.get("services") or {}) + 2 * len(self.w.cfg.get("rules") or {})) * 1280
+                room = max(2, cap // 2 // est)
+                if c["pad"][0] + c["pad"][1] > room:
+                    c = dict(c, pad=[min(c["pad"][0], room // 2), min(c["pad"][1], room // 2)])
                 # ... or the operator's requests for statistics, which make the daemon write a lot, while the
                 # server is slow to read what the daemon writes
                 one = b"-1 ? stats\n-1 ? config\n"
@@ -1244,6 +1255,7 @@ class Exec:
         if rcs and rcs[-1] == 0:
             if how == "timeout":
                 self.cfg["timeout"] = c["timeout"]
+                self.cfg.pop("timeout_text", None)
                 self.w.cfg["timeout"] = c["timeout"]
                 self.conf_text = text
             elif how == "tables":
